@@ -18,7 +18,7 @@ type Site struct {
 	Node ast.Node
 	To   *types.Func // static callee for CALL (declared in the root package)
 	Ref  bool        // the function is referenced as a value, not called
-	InGo bool        // call is the operand of a go statement
+	InGo bool        // call is the operand of a go statement, or lies inside the literal a go statement runs
 }
 
 // Graph is the package-level reference graph with primitive effects.
@@ -120,6 +120,23 @@ func (g *Graph) scan(fn *Func) {
 	}
 	goCalls := map[*ast.CallExpr]bool{}
 	calledIdents := map[*ast.Ident]bool{}
+	var goLits [][2]token.Pos
+	inGoLit := func(pos token.Pos) bool {
+		for _, r := range goLits {
+			if pos >= r[0] && pos <= r[1] {
+				return true
+			}
+		}
+		return false
+	}
+	ast.Inspect(fn.Decl.Body, func(n ast.Node) bool {
+		if gs, ok := n.(*ast.GoStmt); ok {
+			if fl, ok := ast.Unparen(gs.Call.Fun).(*ast.FuncLit); ok {
+				goLits = append(goLits, [2]token.Pos{fl.Pos(), fl.End()})
+			}
+		}
+		return true
+	})
 	ast.Inspect(fn.Decl.Body, func(n ast.Node) bool {
 		switch v := n.(type) {
 		case *ast.GoStmt:
@@ -176,7 +193,7 @@ func (g *Graph) scan(fn *Func) {
 			if fi := p.ByObj[callee]; fi != nil {
 				s := add("CALL", v, v)
 				s.To = callee
-				s.InGo = goCalls[v]
+				s.InGo = goCalls[v] || inGoLit(v.Pos())
 			}
 		}
 		return true
@@ -234,7 +251,7 @@ func ClassifyCall(p *Prog, call *ast.CallExpr, callee *types.Func, full, recv st
 		case "Close":
 			return "CONNCLOSE"
 		case "SetDeadline", "SetReadDeadline", "SetWriteDeadline":
-			return "DEADLINE"
+			return "DEADLINE:" + name
 		case "Read":
 			return "CONNREAD"
 		}
@@ -318,6 +335,28 @@ func (g *Graph) Summary(fn *Func) map[string]bool {
 	}
 	g.summary[fn] = sum
 	return sum
+}
+
+// SyncReach returns fn and every declared function it can call synchronously
+// (on the same goroutine): go statements, their literals and plain function
+// value references are not followed.
+func (g *Graph) SyncReach(fn *Func) map[*Func]bool {
+	seen := map[*Func]bool{fn: true}
+	work := []*Func{fn}
+	for len(work) > 0 {
+		cur := work[len(work)-1]
+		work = work[:len(work)-1]
+		for _, s := range g.Sites[cur] {
+			if s.Kind != "CALL" || s.InGo || s.Ref {
+				continue
+			}
+			if t := g.P.ByObj[s.To]; t != nil && !seen[t] {
+				seen[t] = true
+				work = append(work, t)
+			}
+		}
+	}
+	return seen
 }
 
 // Reach returns fn and every declared function reachable from it.
